@@ -26,6 +26,8 @@ pub type SWriter = http_serve::BodyWriter<Bytes, HarnessError>;
 pub enum Op {
     Write(u32),
     WriteAll(u32),
+    /// `write_vectored` with two slices of these lengths
+    WriteV(u32, u32),
     Flush,
     FlushThenDrain,
     PollUntilPending,
@@ -237,7 +239,12 @@ pub fn execute_with(c: &SCase, light: bool) -> SRun {
     for (idx, op) in c.ops.iter().enumerate() {
         let live = !aborted && !body_dropped;
         match *op {
-            Op::Write(n) | Op::WriteAll(n) => {
+            Op::Write(_) | Op::WriteAll(_) | Op::WriteV(..) => {
+                let (n, split) = match *op {
+                    Op::Write(n) | Op::WriteAll(n) => (n, None),
+                    Op::WriteV(a, b) => (a + b, Some(a as usize)),
+                    _ => unreachable!(),
+                };
                 let all = matches!(op, Op::WriteAll(_));
                 if producer_ops_seen > 0 && polled_since_producer_op {
                     poll_between_ops = true;
@@ -246,7 +253,11 @@ pub fn execute_with(c: &SCase, light: bool) -> SRun {
                 polled_since_producer_op = false;
                 let buf: Vec<u8> = (0..n as u64).map(|i| crate::props::stream::payload_byte(c.payload, pos + i)).collect();
                 let Some(wr) = w.as_mut() else { continue };
-                let r = crate::panics::guard(|| if all { wr.write_all(&buf).map(|_| buf.len()) } else { wr.write(&buf) });
+                let r = crate::panics::guard(|| match split {
+                    Some(a) => wr.write_vectored(&[std::io::IoSlice::new(&buf[..a]), std::io::IoSlice::new(&buf[a..])]),
+                    None if all => wr.write_all(&buf).map(|_| buf.len()),
+                    None => wr.write(&buf),
+                });
                 match r {
                     Err(m) => issue(&mut issues, "w:write-panic", format!("op {idx} {op:?} panicked: {m}")),
                     Ok(Ok(_)) if all && n == 0 => {} // write_all(&[]) never reaches the writer
@@ -601,12 +612,15 @@ pub fn op_strategy(chunk: usize, with_faults: bool, gzip: bool) -> BoxedStrategy
             2 => (1u32..=(c / 8).max(1)).prop_map(move |k| c.saturating_sub(k).max(1)),
             2 => 1u32..=(c / 8).max(2),
             1 => 1u32..=(c / 64).max(2),
+            // hundreds of chunks in one go (long back-to-back deliveries)
+            1 => (100u32..700).prop_map(move |k| c.saturating_mul(k).min(150_000)),
         ]
         .boxed()
     };
     let base = prop_oneof![
         4 => size.clone().prop_map(Op::Write),
-        3 => size.prop_map(Op::WriteAll),
+        3 => size.clone().prop_map(Op::WriteAll),
+        1 => (size.clone(), size).prop_map(|(a, b)| Op::WriteV(a, b)),
         2 => Just(Op::Flush),
         2 => Just(Op::FlushThenDrain),
         1 => Just(Op::PollUntilPending),
@@ -647,6 +661,8 @@ pub fn enumerate_ops(c: usize, n: usize, f: &mut dyn FnMut(&[Op])) {
         alphabet.push(Op::Write(s));
         alphabet.push(Op::WriteAll(s));
     }
+    alphabet.push(Op::WriteV(c.saturating_sub(1) as u32, 2));
+    alphabet.push(Op::WriteV(1, c as u32));
     alphabet.push(Op::Flush);
     alphabet.push(Op::FlushThenDrain);
     alphabet.push(Op::PollUntilPending);
@@ -670,7 +686,7 @@ pub fn enumerate_ops(c: usize, n: usize, f: &mut dyn FnMut(&[Op])) {
 pub const META_C08: Meta = Meta {
     id: "C08",
     level: "exploration",
-    rule: "Stateful/model-based: operation histories over {write(n), write_all(n), flush, flush-then-drain, poll-until-pending, poll(k), sample} with n in {0,1,c-1,c,c+1,2c,3c,random}, then drop, interpreted against streaming_body (identity coding) and an in-memory model of accepted bytes. Exhaustive for all histories of <= 4 operations (thorough 5) over the 17-op alphabet with chunk sizes {1,2,3,4,7}; proptest vec(op, 0..40) for chunk sizes up to 65536. Payload bytes are a running position hash so order and duplication are visible. Non-trivial = >= 2 writes with a partial acceptance or a chunk boundary crossed, and a poll between two producer operations; distinct by fingerprint of history.",
+    rule: "Stateful/model-based: operation histories over {write(n), write_all(n), write_vectored(a, b), flush, flush-then-drain, poll-until-pending, poll(k), sample} with n in {0,1,c-1,c,c+1,2c,3c,random}, then drop, interpreted against streaming_body (identity coding) and an in-memory model of accepted bytes. Exhaustive for all histories of <= 4 operations (thorough 5) over the 19-op alphabet with chunk sizes {1,2,3,4,7}; proptest vec(op, 0..40) for chunk sizes up to 65536. Payload bytes are a running position hash so order and duplication are visible. Non-trivial = >= 2 writes with a partial acceptance or a chunk boundary crossed, and a poll between two producer operations; distinct by fingerprint of history.",
     assumptions: &["single-threaded interleaving of producer operations and consumer polls (schedules are C10's subject)"],
 };
 
@@ -700,7 +716,7 @@ fn check_stream(c: &SCase, acc: &mut Acc, gz: bool) -> Check {
     if let Some(f) = first_issue(&run, prefixes) {
         return fail(f.sig.clone(), format!("{}; case {}; trace {}", f.msg, serde_json::to_string(c).unwrap_or_default(), run.trace.summary()));
     }
-    let n_writes = c.ops.iter().filter(|o| matches!(o, Op::Write(n) | Op::WriteAll(n) if *n > 0)).count();
+    let n_writes = c.ops.iter().filter(|o| matches!(o, Op::Write(n) | Op::WriteAll(n) if *n > 0) || matches!(o, Op::WriteV(a, b) if a + b > 0)).count();
     let (label, nontrivial) = if gz {
         let l = if run.accepted.is_empty() {
             "gzip:empty-payload"
@@ -724,7 +740,7 @@ pub fn run_c08(cx: &Cx) -> Acc {
     let mut acc = Acc::new();
     let max_n = cx.tier.pick(4usize, 5usize);
     let units: Vec<(usize, usize)> = [1usize, 2, 3, 4, 7].iter().flat_map(|c| (0..=max_n).map(move |n| (*c, n))).collect();
-    acc.merge(par_units(cx, "exhaustive-short", &units, true, "every history of n operations over the 17-op alphabet for chunk sizes {1,2,3,4,7}", |cx, &(c, n), acc| {
+    acc.merge(par_units(cx, "exhaustive-short", &units, true, "every history of n operations over the 19-op alphabet for chunk sizes {1,2,3,4,7}", |cx, &(c, n), acc| {
         enumerate_ops(c, n, &mut |ops| {
             let case = SCase {
                 gzip: None,
@@ -746,7 +762,7 @@ pub fn run_c09(cx: &Cx) -> Acc {
     // Short histories exhaustively for two tiny chunk sizes and three levels.
     let max_n = cx.tier.pick(3usize, 4usize);
     let units: Vec<(usize, u32, usize)> = [1usize, 5].iter().flat_map(|c| [1u32, 6, 9].into_iter().flat_map(move |l| (0..=max_n).map(move |n| (*c, l, n)))).collect();
-    acc.merge(par_units(cx, "exhaustive-short", &units, true, "every history of n operations over the 17-op alphabet, chunk sizes {1,5}, levels {1,6,9}", |cx, &(c, level, n), acc| {
+    acc.merge(par_units(cx, "exhaustive-short", &units, true, "every history of n operations over the 19-op alphabet, chunk sizes {1,5}, levels {1,6,9}", |cx, &(c, level, n), acc| {
         enumerate_ops(c, n, &mut |ops| {
             let case = SCase {
                 gzip: Some(level),
@@ -770,7 +786,23 @@ pub fn run_c09(cx: &Cx) -> Acc {
                 gzip: Some(level),
                 chunk: chunk.max(64),
                 payload,
-                ops: ws.into_iter().flat_map(|(n, fl)| if fl { vec![Op::WriteAll(n), Op::FlushThenDrain] } else { vec![Op::WriteAll(n)] }).collect(),
+                ops: ws
+                    .into_iter()
+                    .enumerate()
+                    .flat_map(|(i, (n, fl))| {
+                        // whole-buffer write_all, a single write call followed by write_all of the rest, or a vectored write
+                        let w = match (n + i as u32) % 3 {
+                            0 => vec![Op::WriteAll(n)],
+                            1 => vec![Op::Write(n), Op::WriteAll(n / 3)],
+                            _ => vec![Op::WriteV(n - n / 4, n / 4), Op::WriteAll(n / 5)],
+                        };
+                        if fl {
+                            w.into_iter().chain([Op::FlushThenDrain]).collect::<Vec<_>>()
+                        } else {
+                            w
+                        }
+                    })
+                    .collect(),
                 extra_polls: 1,
             })
         },
